@@ -169,10 +169,6 @@ def lastDotDot (d : Bool) : List (Option Node) → Bool
   | [] => d
   | x :: rest => lastDotDot (isDotDot x) rest
 
-/-- the parameters are identifiers or `..`, and the function is variadic iff the last one is `..` -/
-def paramsOK (variadic : Bool) (params : List (Option Node)) : Bool :=
-  params.all isParam && variadic == lastDotDot false params
-
 /-- the parameters of a lambda, as `okParamList` accepts them: identifiers, the last one may be `..` (exactly then the
 lambda is variadic) -/
 def lambdaParamsOK (variadic : Bool) (params : List (Option Node)) : Bool :=
@@ -180,6 +176,13 @@ def lambdaParamsOK (variadic : Bool) (params : List (Option Node)) : Bool :=
     (match Parser.okParamList params with
      | some (t, true) => t.isSome == variadic
      | _ => false)
+
+/-- the parameters of a function literal: the same rule since `parseFunctionParameters` checks its list with `okParamList` -/
+def paramsOK (variadic : Bool) (params : List (Option Node)) : Bool := lambdaParamsOK variadic params
+
+/-- the parameters of a macro literal (the variadic flag of `parseFunctionParameters` is dropped) -/
+def macroParamsOK (params : List (Option Node)) : Bool :=
+  params.all isParam && (match Parser.okParamList params with | some (_, true) => true | _ => false)
 
 mutual
 def fragN (c ap : Bool) : Node → Bool
@@ -206,7 +209,7 @@ def fragN (c ap : Bool) : Node → Bool
     if isLambda then t == ⟨.LAMBDA, [61, 62]⟩ && name.isNone && lambdaParamsOK variadic params && fragB c ap body
     else t.type == .FUNC && (match name with | some nm => nm.type == .IDENT | none => true) &&
       paramsOK variadic params && fragB c ap body
-  | .macroLit t params body => t.type == .MACRO && params.all isParam && fragB c ap body
+  | .macroLit t params body => t.type == .MACRO && macroParamsOK params && fragB c ap body
   | .mapLit t kvs => t == ⟨.LBRACE, [123]⟩ && fragPairs c ap kvs
   | .forE t cond body => t == ⟨.FOR, [102, 111, 114]⟩ && fragO c ap cond && fragB c ap body
   | .ifE t cond cons alt => t == ⟨.IF, [105, 102]⟩ && fragO c ap cond && fragB c ap cons && fragAlt c ap alt
